@@ -768,4 +768,547 @@ theorem ucpm_hdrsEqv_eff (hs ks : List UcpmItem) (hh : ∀ i ∈ hs, i.name ≠ 
         omega
     · simp only [ucpmEff, if_neg e1, if_neg e2]
 
+
+theorem ucpm_par_nat : ∀ a, a < 256 → tokAllowedChar (UInt8.ofNat a) ucpmPF = true →
+    ucPar (UInt8.ofNat a) = true ∧ UInt8.ofNat a ≠ 59 ∧ UInt8.ofNat a ≠ 63 := by decide +kernel
+theorem ucpm_hdr_nat : ∀ a, a < 256 → tokAllowedChar (UInt8.ofNat a) ucpmHF = true →
+    ucHdr (UInt8.ofNat a) = true ∧ UInt8.ofNat a ≠ 38 ∧ UInt8.ofNat a ≠ 0 := by decide +kernel
+theorem ucpm_low_nat : ∀ a, a < 256 →
+    (lowerB (UInt8.ofNat a) = 115 → ucLow (UInt8.ofNat a) = 115) ∧
+    (lowerB (UInt8.ofNat a) = 105 → ucLow (UInt8.ofNat a) = 105) ∧
+    (lowerB (UInt8.ofNat a) = 112 → ucLow (UInt8.ofNat a) = 112) ∧
+    (lowerB (UInt8.ofNat a) = 58 → UInt8.ofNat a = 58) := by decide +kernel
+
+theorem ucpm_par (c : UInt8) (h : tokAllowedChar c ucpmPF = true) : ucPar c = true ∧ c ≠ 59 ∧ c ≠ 63 := by
+  have := ucpm_par_nat c.toNat (UInt8.toNat_lt c)
+  simpa using this (by simpa using h)
+theorem ucpm_hdr (c : UInt8) (h : tokAllowedChar c ucpmHF = true) : ucHdr c = true ∧ c ≠ 38 ∧ c ≠ 0 := by
+  have := ucpm_hdr_nat c.toNat (UInt8.toNat_lt c)
+  simpa using this (by simpa using h)
+theorem ucpm_low (c : UInt8) : (lowerB c = 115 → ucLow c = 115) ∧ (lowerB c = 105 → ucLow c = 105) ∧
+    (lowerB c = 112 → ucLow c = 112) ∧ (lowerB c = 58 → c = 58) := by
+  have := ucpm_low_nat c.toNat (UInt8.toNat_lt c)
+  simpa using this
+
+theorem ucpm_join_all (f : UInt8 → Bool) (sep : UInt8) (hsep : f sep = true) (h61 : f 61 = true) :
+    ∀ (items : List UcpmItem), (∀ it ∈ items, (∀ c ∈ it.name, f c = true) ∧ (∀ c ∈ it.val, f c = true)) →
+      ∀ c ∈ ucpmJoin sep items, f c = true := by
+  have htext : ∀ it : UcpmItem, ((∀ c ∈ it.name, f c = true) ∧ (∀ c ∈ it.val, f c = true)) → ∀ c ∈ it.text, f c = true := by
+    intro it h c hc
+    unfold UcpmItem.text at hc
+    split at hc
+    · exact h.1 c hc
+    · rcases List.mem_append.1 hc with hc | hc
+      · exact h.1 c hc
+      · rcases List.mem_cons.1 hc with rfl | hc
+        · exact h61
+        · exact h.2 c hc
+  intro items
+  induction items with
+  | nil => intro _ c hc; cases hc
+  | cons it rest ih =>
+    intro h c hc
+    cases rest with
+    | nil =>
+      rw [ucpmJoin] at hc
+      exact htext it (h it List.mem_cons_self) c hc
+    | cons it' r =>
+      rw [ucpmJoin] at hc
+      rcases List.mem_append.1 hc with hc | hc
+      · exact htext it (h it List.mem_cons_self) c hc
+      · rcases List.mem_cons.1 hc with rfl | hc
+        · exact hsep
+        · exact ih (fun x hx => h x (List.mem_cons_of_mem _ hx)) c hc
+
+/-! ### the rendering of a URI from its parts -/
+
+/-- the parts of a `sip:` / `sips:` URI of the simplest well-formed shape: scheme, optional `user[:password]@`, a host
+    name, optional `:port`, parameter items `name[=value]` (joined with `;`), header items `name[=value]` (joined
+    with `&`); names and values are plain tokens (no white space, no quotes) -/
+structure UcpmParts where
+  sips : Bool
+  scheme : List UInt8
+  user : List UInt8
+  pass : Option (List UInt8)
+  host : List UInt8
+  port : Option (List UInt8)
+  params : List UcpmItem
+  hdrs : List UcpmItem
+
+def ucpmUiText (p : UcpmParts) : List UInt8 :=
+  if p.user = [] then []
+  else match p.pass with
+    | none => p.user ++ [64]
+    | some pw => p.user ++ 58 :: (pw ++ [64])
+def ucpmPoText (p : UcpmParts) : List UInt8 :=
+  match p.port with
+  | none => []
+  | some d => 58 :: d
+def ucpmPaText (p : UcpmParts) : List UInt8 := if p.params = [] then [] else 59 :: ucpmJoin 59 p.params
+def ucpmHdText (p : UcpmParts) : List UInt8 := if p.hdrs = [] then [] else 63 :: ucpmJoin 38 p.hdrs
+
+/-- the URI text -/
+def ucpmText (p : UcpmParts) : List UInt8 :=
+  p.scheme ++ (ucpmUiText p ++ (p.host ++ (ucpmPoText p ++ (ucpmPaText p ++ ucpmHdText p))))
+
+def ucpmRaw (p : UcpmParts) : Buf := (ucpmText p).toArray
+
+/-- offsets: start of the host, end of the host, end of the port, end of the parameters -/
+def ucpmHs (p : UcpmParts) : Nat := p.scheme.length + (ucpmUiText p).length
+def ucpmHe (p : UcpmParts) : Nat := ucpmHs p + p.host.length
+def ucpmPe (p : UcpmParts) : Nat := ucpmHe p + (ucpmPoText p).length
+def ucpmQe (p : UcpmParts) : Nat := ucpmPe p + (ucpmPaText p).length
+
+def ucpmUserF (p : UcpmParts) : PField := if p.user = [] then ⟨0, 0⟩ else ⟨p.scheme.length, p.user.length⟩
+def ucpmPassF (p : UcpmParts) : PField :=
+  if p.user = [] then ⟨0, 0⟩
+  else match p.pass with
+    | none => ⟨0, 0⟩
+    | some pw => ⟨p.scheme.length + p.user.length + 1, pw.length⟩
+def ucpmPortF (p : UcpmParts) : PField :=
+  match p.port with
+  | none => ⟨0, 0⟩
+  | some d => ⟨ucpmHe p + 1, d.length⟩
+def ucpmPortNo (p : UcpmParts) : Nat :=
+  match p.port with
+  | none => 0
+  | some d => decOf d
+def ucpmParamsF (p : UcpmParts) : PField :=
+  if p.params = [] then ⟨0, 0⟩ else ⟨ucpmPe p + 1, (ucpmJoin 59 p.params).length⟩
+def ucpmHdrsF (p : UcpmParts) : PField :=
+  if p.hdrs = [] then ⟨0, 0⟩ else ⟨ucpmQe p + 1, (ucpmJoin 38 p.hdrs).length⟩
+
+/-- the URI object ParseURI returns for the rendering -/
+def ucpmURI (p : UcpmParts) : PsipURI :=
+  { uriType := if p.sips then SIPSuri else SIPuri, scheme := ⟨0, p.scheme.length⟩, user := ucpmUserF p,
+    pass := ucpmPassF p, host := ⟨ucpmHs p, p.host.length⟩, port := ucpmPortF p, params := ucpmParamsF p,
+    headers := ucpmHdrsF p, portNo := ucpmPortNo p }
+
+/-- host byte: none of `@ : ; ? [ ] &` -/
+def ucpmHostCh (c : UInt8) : Bool := ucTok c && !(c == 38)
+
+/-- the side conditions of the rendering -/
+structure UcpmOk (p : UcpmParts) : Prop where
+  scheme : lowerL p.scheme = if p.sips then [115, 105, 112, 115, 58] else [115, 105, 112, 58]
+  user : ∀ c ∈ p.user, ucTok c = true
+  passUser : p.user = [] → p.pass = none
+  pass : ∀ pw, p.pass = some pw → ∀ c ∈ pw, ucTok c = true
+  hostNe : p.host ≠ []
+  host : ∀ c ∈ p.host, ucpmHostCh c = true
+  port : ∀ d, p.port = some d → (∀ c ∈ d, isDigit c = true) ∧ decOf d ≤ 65535
+  params : ∀ it ∈ p.params, UcpmItemOk ucpmPF it
+  hdrs : ∀ it ∈ p.hdrs, UcpmItemOk ucpmHF it
+  paramsLen : p.params.length ≤ 100
+  hdrsLen : p.hdrs.length ≤ 100
+  paramsNoDup : UcpmNoDup p.params
+  hdrsNoDup : UcpmNoDup p.hdrs
+  fit : (ucpmText p).length ≤ 65535
+
+theorem ucpm_size (p : UcpmParts) : (ucpmRaw p).size = ucpmQe p + (ucpmHdText p).length := by
+  unfold ucpmRaw ucpmText ucpmQe ucpmPe ucpmHe ucpmHs
+  simp only [List.size_toArray, List.length_append]
+  omega
+
+theorem ucpm_hd {b : Buf} (p : UcpmParts) (hok : UcpmOk p) (hat : UcpmAt b (ucpmQe p) (ucpmHdText p))
+    (hsz : b.size = ucpmQe p + (ucpmHdText p).length) : UcHd b (ucpmQe p) (ucpmHdrsF p) := by
+  unfold ucpmHdText at hat hsz
+  unfold ucpmHdrsF
+  by_cases h : p.hdrs = []
+  · rw [if_pos h] at hat hsz ⊢
+    exact Or.inl ⟨by simpa using hsz.symm, rfl⟩
+  · rw [if_neg h] at hat hsz ⊢
+    obtain ⟨h63, h2⟩ := hat.cons
+    simp only [List.length_cons] at hsz
+    refine Or.inr ⟨h63, ?_, ?_⟩
+    · rw [show b.size - (ucpmQe p + 1) = (ucpmJoin 38 p.hdrs).length by omega]
+    · rw [show b.size = ucpmQe p + 1 + (ucpmJoin 38 p.hdrs).length by omega]
+      refine h2.all (ucpm_join_all ucHdr 38 (by decide) (by decide) p.hdrs (fun it hit => ?_))
+      have ho := hok.hdrs it hit
+      exact ⟨fun c hc => (ucpm_hdr c (ho.name c hc).1).1, fun c hc => (ucpm_hdr c (ho.val c hc).1).1⟩
+
+theorem ucpm_pa {b : Buf} (p : UcpmParts) (hok : UcpmOk p)
+    (hat : UcpmAt b (ucpmPe p) (ucpmPaText p ++ ucpmHdText p))
+    (hsz : b.size = ucpmQe p + (ucpmHdText p).length) : UcPa b (ucpmPe p) (ucpmParamsF p) (ucpmHdrsF p) := by
+  obtain ⟨h1, h2⟩ := hat.append
+  have hhd := ucpm_hd p hok h2 hsz
+  have hq : ucpmQe p = ucpmPe p + (ucpmPaText p).length := rfl
+  unfold ucpmPaText at h1 hq
+  unfold ucpmParamsF
+  by_cases h : p.params = []
+  · rw [if_pos h] at h1 hq ⊢
+    rw [hq] at hhd
+    exact Or.inl ⟨rfl, hhd⟩
+  · rw [if_neg h] at h1 hq ⊢
+    obtain ⟨h59, h3⟩ := h1.cons
+    simp only [List.length_cons] at hq
+    refine Or.inr ⟨h59, ucpmQe p, by omega, ?_, ?_, hhd⟩
+    · rw [show ucpmQe p - (ucpmPe p + 1) = (ucpmJoin 59 p.params).length by omega]
+    · rw [show ucpmQe p = ucpmPe p + 1 + (ucpmJoin 59 p.params).length by omega]
+      refine h3.all (ucpm_join_all ucPar 59 (by decide) (by decide) p.params (fun it hit => ?_))
+      have ho := hok.params it hit
+      exact ⟨fun c hc => (ucpm_par c (ho.name c hc).1).1, fun c hc => (ucpm_par c (ho.val c hc).1).1⟩
+
+theorem ucpm_po {b : Buf} (p : UcpmParts) (hok : UcpmOk p)
+    (hat : UcpmAt b (ucpmHe p) (ucpmPoText p ++ (ucpmPaText p ++ ucpmHdText p)))
+    (hsz : b.size = ucpmQe p + (ucpmHdText p).length) :
+    UcPo b (ucpmHe p) (ucpmPortF p) (ucpmPortNo p) (ucpmParamsF p) (ucpmHdrsF p) := by
+  obtain ⟨h1, h2⟩ := hat.append
+  have hpe : ucpmPe p = ucpmHe p + (ucpmPoText p).length := rfl
+  rw [← hpe] at h2
+  have hpa := ucpm_pa p hok h2 hsz
+  unfold ucpmPoText at h1 hpe
+  unfold ucpmPortF ucpmPortNo
+  rcases hp : p.port with _ | d
+  · rw [hp] at h1 hpe
+    simp only [List.length_nil, Nat.add_zero] at hpe
+    rw [hpe] at hpa
+    exact Or.inl ⟨rfl, rfl, hpa⟩
+  · rw [hp] at h1 hpe
+    simp only [List.length_cons] at hpe
+    obtain ⟨h58, h3⟩ := h1.cons
+    obtain ⟨hd, hv⟩ := hok.port d hp
+    have hq : ucpmPe p ≤ ucpmQe p := Nat.le_add_right _ _
+    have hex : b.extract (ucpmHe p + 1) (ucpmHe p + 1 + d.length) = d.toArray := h3.extract (by omega)
+    refine Or.inr ⟨h58, ucpmPe p, by omega, ?_, ?_, ?_, hv, hpa⟩
+    · simp only
+      rw [show ucpmPe p - (ucpmHe p + 1) = d.length by omega]
+    · rw [show ucpmPe p = ucpmHe p + 1 + d.length by omega]
+      exact h3.all hd
+    · simp only
+      unfold digitsOf
+      rw [show ucpmPe p = ucpmHe p + 1 + d.length by omega, hex]
+
+
+theorem ucpm_hostCh_nat : ∀ a, a < 256 → ucpmHostCh (UInt8.ofNat a) = true →
+    ucTok (UInt8.ofNat a) = true ∧ ucFirst (UInt8.ofNat a) = true ∧ ucHost0 (UInt8.ofNat a) = true ∧
+    ucHost (UInt8.ofNat a) = true := by decide +kernel
+theorem ucpm_hostCh (c : UInt8) (h : ucpmHostCh c = true) :
+    ucTok c = true ∧ ucFirst c = true ∧ ucHost0 c = true ∧ ucHost c = true := by
+  have := ucpm_hostCh_nat c.toNat (UInt8.toNat_lt c)
+  simpa using this (by simpa using h)
+theorem ucpm_tok_first_nat : ∀ a, a < 256 → ucTok (UInt8.ofNat a) = true → ucFirst (UInt8.ofNat a) = true := by
+  decide +kernel
+theorem ucpm_tok_first (c : UInt8) (h : ucTok c = true) : ucFirst c = true := by
+  have := ucpm_tok_first_nat c.toNat (UInt8.toNat_lt c)
+  simpa using this (by simpa using h)
+
+theorem ucpm_lower_cons {l : List UInt8} {a : UInt8} {t : List UInt8} (h : lowerL l = a :: t) :
+    ∃ c l', l = c :: l' ∧ lowerB c = a ∧ lowerL l' = t := by
+  cases l with
+  | nil => simp [lowerL] at h
+  | cons c l' =>
+    simp only [lowerL, List.map_cons, List.cons.injEq] at h
+    exact ⟨c, l', rfl, h.1, h.2⟩
+
+theorem ucpm_firstTok {b : Buf} {k : Nat} {m : List UInt8} (hat : UcpmAt b k m) (hne : m ≠ [])
+    (hm : ∀ c ∈ m, ucTok c = true) : UcFirstTok b k (k + m.length) := by
+  have hl : 0 < m.length := List.length_pos_iff.2 hne
+  have hall := hat.all hm
+  exact ⟨by omega, (hall.sub (Nat.le_refl _) (by omega)).mono ucpm_tok_first, hall.sub (by omega) (Nat.le_refl _)⟩
+
+theorem ucpm_rest {b : Buf} (p : UcpmParts) (hok : UcpmOk p)
+    (hat : UcpmAt b p.scheme.length (ucpmUiText p ++ (p.host ++ (ucpmPoText p ++ (ucpmPaText p ++ ucpmHdText p)))))
+    (hsz : b.size = ucpmQe p + (ucpmHdText p).length) : UcRest b p.scheme.length (ucpmURI p) := by
+  obtain ⟨h1, h2⟩ := hat.append
+  have hhs : ucpmHs p = p.scheme.length + (ucpmUiText p).length := rfl
+  rw [← hhs] at h2
+  obtain ⟨h3, h4⟩ := h2.append
+  have hhe : ucpmHe p = ucpmHs p + p.host.length := rfl
+  rw [← hhe] at h4
+  have hpo := ucpm_po p hok h4 hsz
+  have hhl : 0 < p.host.length := List.length_pos_iff.2 hok.hostNe
+  unfold ucpmUiText at h1 hhs
+  by_cases hu : p.user = []
+  · rw [if_pos hu] at h1 hhs
+    simp only [List.length_nil, Nat.add_zero] at hhs
+    left
+    refine ⟨by simp only [ucpmURI, ucpmUserF, if_pos hu], by simp only [ucpmURI, ucpmPassF, if_pos hu], ucpmHe p, Or.inl ?_,
+      ?_, hpo⟩
+    · rw [hhe, hhs]
+      rw [hhs] at h3
+      exact ucpm_firstTok h3 hok.hostNe (fun c hc => (ucpm_hostCh c (hok.host c hc)).1)
+    · show (⟨ucpmHs p, p.host.length⟩ : PField) = _
+      rw [hhe, hhs, Nat.add_sub_cancel_left]
+  · rw [if_neg hu] at h1 hhs
+    have hul : 0 < p.user.length := List.length_pos_iff.2 hu
+    right
+    have hhost : UcNameHost b (ucpmHs p) (ucpmHe p) := by
+      have hall0 := h3.all (fun c hc => (ucpm_hostCh c (hok.host c hc)).2.2.1)
+      have hall1 := h3.all (fun c hc => (ucpm_hostCh c (hok.host c hc)).2.2.2)
+      rw [← hhe] at hall0 hall1
+      exact ⟨by omega, hall0.sub (Nat.le_refl _) (by omega), hall1.sub (by omega) (Nat.le_refl _)⟩
+    rcases hp : p.pass with _ | pw
+    · rw [hp] at h1 hhs
+      simp only [List.length_append, List.length_cons, List.length_nil] at hhs
+      obtain ⟨h5, h6⟩ := h1.append
+      obtain ⟨h64, _⟩ := h6.cons
+      refine ⟨p.scheme.length + p.user.length, ucpmHe p, h64, Or.inl ?_, ?_, ?_, hpo⟩
+      · refine ⟨p.scheme.length + p.user.length, ucpm_firstTok h5 hu hok.user, ?_, Or.inl ⟨rfl, ?_⟩⟩
+        · simp only [ucpmURI, ucpmUserF, if_neg hu, Nat.add_sub_cancel_left]
+        · simp only [ucpmURI, ucpmPassF, if_neg hu, hp]
+      · rw [show p.scheme.length + p.user.length + 1 = ucpmHs p by omega]
+        exact Or.inl hhost
+      · show (⟨ucpmHs p, p.host.length⟩ : PField) = _
+        rw [show p.scheme.length + p.user.length + 1 = ucpmHs p by omega, hhe, Nat.add_sub_cancel_left]
+    · rw [hp] at h1 hhs
+      simp only [List.length_append, List.length_cons, List.length_nil] at hhs
+      obtain ⟨h5, h6⟩ := h1.append
+      obtain ⟨h58, h7⟩ := h6.cons
+      obtain ⟨h8, h9⟩ := h7.append
+      obtain ⟨h64, _⟩ := h9.cons
+      refine ⟨p.scheme.length + p.user.length + 1 + pw.length, ucpmHe p, h64, Or.inl ?_, ?_, ?_, hpo⟩
+      · refine ⟨p.scheme.length + p.user.length, ucpm_firstTok h5 hu hok.user, ?_, Or.inr ⟨h58, by omega, ?_, ?_⟩⟩
+        · simp only [ucpmURI, ucpmUserF, if_neg hu, Nat.add_sub_cancel_left]
+        · simp only [ucpmURI, ucpmPassF, if_neg hu, hp, Nat.add_sub_cancel_left]
+        · exact h8.all (hok.pass pw hp)
+      · rw [show p.scheme.length + p.user.length + 1 + pw.length + 1 = ucpmHs p by omega]
+        exact Or.inl hhost
+      · show (⟨ucpmHs p, p.host.length⟩ : PField) = _
+        rw [show p.scheme.length + p.user.length + 1 + pw.length + 1 = ucpmHs p by omega, hhe, Nat.add_sub_cancel_left]
+
+/-- **the rendering is a URI of the grammar of C14, with the components `ucpmURI`** -/
+theorem ucpm_ucURI (p : UcpmParts) (hok : UcpmOk p) : UcURI (ucpmRaw p) (ucpmURI p) := by
+  have hat : UcpmAt (ucpmRaw p) 0 (ucpmText p) := UcpmAt.self _
+  unfold ucpmText at hat
+  obtain ⟨h1, h2⟩ := hat.append
+  rw [Nat.zero_add] at h2
+  have hrest := ucpm_rest p hok h2 (ucpm_size p)
+  have hs := hok.scheme
+  by_cases hb : p.sips = true
+  · rw [if_pos hb] at hs
+    obtain ⟨c0, l0, e0, g0, hs⟩ := ucpm_lower_cons hs
+    obtain ⟨c1, l1, e1, g1, hs⟩ := ucpm_lower_cons hs
+    obtain ⟨c2, l2, e2, g2, hs⟩ := ucpm_lower_cons hs
+    obtain ⟨c3, l3, e3, g3, hs⟩ := ucpm_lower_cons hs
+    obtain ⟨c4, l4, e4, g4, hs⟩ := ucpm_lower_cons hs
+    have e5 := ucpm_lower_nil hs
+    have hsch : p.scheme = [c0, c1, c2, c3, c4] := by rw [e0, e1, e2, e3, e4, e5]
+    have hlen : p.scheme.length = 5 := by rw [hsch]; rfl
+    rw [hsch] at h1
+    have g4' := (ucpm_low c4).2.2.2 g4
+    right
+    refine ⟨⟨⟨c0, c1, c2, c3, h1 0 c0 rfl, h1 1 c1 rfl, h1 2 c2 rfl, h1 3 c3 rfl, (ucpm_low c0).1 g0,
+      (ucpm_low c1).2.1 g1, (ucpm_low c2).2.2.1 g2, (ucpm_low c3).1 g3⟩, by rw [← g4']; exact h1 4 c4 rfl⟩, ?_, ?_, ?_⟩
+    · simp only [ucpmURI, hb, if_true]
+    · simp only [ucpmURI, hlen]
+    · rw [← hlen]; exact hrest
+  · rw [if_neg hb] at hs
+    obtain ⟨c0, l0, e0, g0, hs⟩ := ucpm_lower_cons hs
+    obtain ⟨c1, l1, e1, g1, hs⟩ := ucpm_lower_cons hs
+    obtain ⟨c2, l2, e2, g2, hs⟩ := ucpm_lower_cons hs
+    obtain ⟨c3, l3, e3, g3, hs⟩ := ucpm_lower_cons hs
+    have e5 := ucpm_lower_nil hs
+    have hsch : p.scheme = [c0, c1, c2, c3] := by rw [e0, e1, e2, e3, e5]
+    have hlen : p.scheme.length = 4 := by rw [hsch]; rfl
+    rw [hsch] at h1
+    have g3' := (ucpm_low c3).2.2.2 g3
+    left
+    refine ⟨⟨c0, c1, c2, c3, h1 0 c0 rfl, h1 1 c1 rfl, h1 2 c2 rfl, h1 3 c3 rfl, (ucpm_low c0).1 g0,
+      (ucpm_low c1).2.1 g1, (ucpm_low c2).2.2.1 g2, by rw [g3']; rfl⟩, ?_, ?_, ?_⟩
+    · simp only [ucpmURI, hb, Bool.false_eq_true, if_false]
+    · simp only [ucpmURI, hlen]
+    · rw [← hlen]; exact hrest
+
+/-- **ParseURI on the rendering**: accepted, consumed to the end, no panic, the components are `ucpmURI` -/
+theorem ucpm_parse (p : UcpmParts) (hok : UcpmOk p) :
+    parseURI (ucpmRaw p) {} = (UErr.none, (ucpmRaw p).size, ucpmURI p, false) :=
+  parseURI_complete _ (by simpa [ucpmRaw] using hok.fit) _ (ucpm_ucURI p hok)
+
+
+theorem ucpm_get_at {b : Buf} {o : Nat} {m : List UInt8} (hfit : b.size ≤ 65535) (hat : UcpmAt b o m)
+    (hle : o + m.length ≤ b.size) : PField.get? b ⟨o, m.length⟩ = some m.toArray := by
+  rw [field_get? b o _ hle hfit, hat.extract hle]
+
+theorem ucpm_get_zero {b : Buf} (hfit : b.size ≤ 65535) : PField.get? b ⟨0, 0⟩ = some ([] : List UInt8).toArray := by
+  rw [field_get? b 0 0 (Nat.zero_le _) hfit]
+  simp
+
+/-- where the pieces of the rendering stand -/
+theorem ucpm_segs (p : UcpmParts) :
+    UcpmAt (ucpmRaw p) p.scheme.length (ucpmUiText p) ∧ UcpmAt (ucpmRaw p) (ucpmHs p) p.host ∧
+    UcpmAt (ucpmRaw p) (ucpmHe p) (ucpmPoText p) ∧ UcpmAt (ucpmRaw p) (ucpmPe p) (ucpmPaText p) ∧
+    UcpmAt (ucpmRaw p) (ucpmQe p) (ucpmHdText p) := by
+  have hat : UcpmAt (ucpmRaw p) 0 (ucpmText p) := UcpmAt.self _
+  unfold ucpmText at hat
+  obtain ⟨_, h2⟩ := hat.append
+  rw [Nat.zero_add] at h2
+  obtain ⟨h3, h4⟩ := h2.append
+  obtain ⟨h5, h6⟩ := h4.append
+  obtain ⟨h7, h8⟩ := h6.append
+  obtain ⟨h9, h10⟩ := h8.append
+  exact ⟨h3, h5, h7, h9, h10⟩
+
+/-- the password bytes URICmp reads: none when no password is written -/
+def ucpmPassBytes (p : UcpmParts) : List UInt8 :=
+  match p.pass with
+  | none => []
+  | some pw => pw
+
+/-- **the components of the parsed rendering read back as the parts** -/
+theorem ucpm_gets (p : UcpmParts) (hok : UcpmOk p) :
+    (ucpmURI p).user.get? (ucpmRaw p) = some p.user.toArray ∧
+    (ucpmURI p).pass.get? (ucpmRaw p) = some (ucpmPassBytes p).toArray ∧
+    (ucpmURI p).host.get? (ucpmRaw p) = some p.host.toArray ∧
+    (ucpmURI p).params.get? (ucpmRaw p) = some (ucpmJoin 59 p.params).toArray ∧
+    (ucpmURI p).headers.get? (ucpmRaw p) = some (ucpmJoin 38 p.hdrs).toArray := by
+  have hfit : (ucpmRaw p).size ≤ 65535 := by simpa [ucpmRaw] using hok.fit
+  obtain ⟨s1, s2, s3, s4, s5⟩ := ucpm_segs p
+  have hsz := ucpm_size p
+  have e1 : ucpmHs p = p.scheme.length + (ucpmUiText p).length := rfl
+  have e2 : ucpmHe p = ucpmHs p + p.host.length := rfl
+  have e3 : ucpmPe p = ucpmHe p + (ucpmPoText p).length := rfl
+  have e4 : ucpmQe p = ucpmPe p + (ucpmPaText p).length := rfl
+  refine ⟨?_, ?_, ?_, ?_, ?_⟩
+  · show PField.get? _ (ucpmUserF p) = _
+    unfold ucpmUserF
+    unfold ucpmUiText at s1 e1
+    by_cases hu : p.user = []
+    · rw [if_pos hu, hu]; exact ucpm_get_zero hfit
+    · rw [if_neg hu]
+      rw [if_neg hu] at s1 e1
+      rcases hp : p.pass with _ | pw
+      · rw [hp] at s1 e1
+        simp only [List.length_append] at e1
+        exact ucpm_get_at hfit s1.append.1 (by omega)
+      · rw [hp] at s1 e1
+        simp only [List.length_append] at e1
+        exact ucpm_get_at hfit s1.append.1 (by omega)
+  · show PField.get? _ (ucpmPassF p) = _
+    unfold ucpmPassF ucpmPassBytes
+    unfold ucpmUiText at s1 e1
+    by_cases hu : p.user = []
+    · rw [if_pos hu, hok.passUser hu]; exact ucpm_get_zero hfit
+    · rw [if_neg hu]
+      rw [if_neg hu] at s1 e1
+      rcases hp : p.pass with _ | pw
+      · exact ucpm_get_zero hfit
+      · rw [hp] at s1 e1
+        simp only [List.length_append, List.length_cons] at e1
+        exact ucpm_get_at hfit s1.append.2.cons.2.append.1 (by omega)
+  · exact ucpm_get_at hfit s2 (by omega)
+  · show PField.get? _ (ucpmParamsF p) = _
+    unfold ucpmParamsF
+    unfold ucpmPaText at s4 e4
+    by_cases h : p.params = []
+    · rw [if_pos h, h]; exact ucpm_get_zero hfit
+    · rw [if_neg h]
+      rw [if_neg h] at s4 e4
+      simp only [List.length_cons] at e4
+      exact ucpm_get_at hfit s4.cons.2 (by omega)
+  · show PField.get? _ (ucpmHdrsF p) = _
+    unfold ucpmHdrsF
+    unfold ucpmHdText at s5 hsz
+    by_cases h : p.hdrs = []
+    · rw [if_pos h, h]; exact ucpm_get_zero hfit
+    · rw [if_neg h]
+      rw [if_neg h] at s5 hsz
+      simp only [List.length_cons] at hsz
+      exact ucpm_get_at hfit s5.cons.2 (by omega)
+
+theorem ucpm_join_le (p : UcpmParts) :
+    (ucpmJoin 59 p.params).length ≤ (ucpmText p).length ∧ (ucpmJoin 38 p.hdrs).length ≤ (ucpmText p).length := by
+  have h1 : (ucpmJoin 59 p.params).length ≤ (ucpmPaText p).length := by
+    unfold ucpmPaText
+    split
+    · rename_i h; rw [h]; exact Nat.le_refl _
+    · simp
+  have h2 : (ucpmJoin 38 p.hdrs).length ≤ (ucpmHdText p).length := by
+    unfold ucpmHdText
+    split
+    · rename_i h; rw [h]; exact Nat.le_refl _
+    · simp
+  unfold ucpmText
+  simp only [List.length_append]
+  omega
+
+
+/-! ### URIParseCmp on two renderings, in terms of the parts -/
+
+/-- what "equal" means for two renderings, in terms of their parts, under the flag set `f` -/
+def UcpmSpec (p q : UcpmParts) (f : Nat) : Prop :=
+  (hasFlag f URICmpSkipScheme = true ∨ p.sips = q.sips) ∧
+  (hasFlag f URICmpSkipPort = true ∨ ucpmPortNo p = ucpmPortNo q) ∧
+  (hasFlag f URICmpSkipUser = true ∨ p.user = q.user) ∧
+  (hasFlag f URICmpSkipPass = true ∨ ucpmPassBytes p = ucpmPassBytes q) ∧
+  lowerL p.host = lowerL q.host ∧
+  (hasFlag f URICmpSkipParams = true ∨ UcpmParamsEqv p.params q.params) ∧
+  (hasFlag f URICmpSkipHeaders = true ∨ UcpmHdrsEqv p.hdrs q.hdrs)
+
+theorem ucpm_some_eq {x y : List UInt8} :
+    (∃ a c : Buf, some x.toArray = some a ∧ some y.toArray = some c ∧ a = c) ↔ x = y := by
+  constructor
+  · rintro ⟨a, c, ha, hc, hac⟩
+    cases ha; cases hc
+    simpa using hac
+  · intro h; exact ⟨_, _, rfl, rfl, by rw [h]⟩
+
+theorem ucpm_some_caseEq {x y : List UInt8} :
+    (∃ a c : Buf, some x.toArray = some a ∧ some y.toArray = some c ∧ CaseEq a c) ↔ lowerL x = lowerL y := by
+  constructor
+  · rintro ⟨a, c, ha, hc, hac⟩
+    cases ha; cases hc
+    exact hac
+  · intro h; exact ⟨_, _, rfl, rfl, h⟩
+
+theorem ucpm_paramsPart (p q : UcpmParts) (hp : UcpmOk p) (hq : UcpmOk q) :
+    uriCmpParamsPart (ucpmURI p) (ucpmRaw p) (ucpmURI q) (ucpmRaw q) = some true ↔ UcpmParamsEqv p.params q.params := by
+  obtain ⟨r, hr, hrs⟩ := ucpm_paramsEq_spec p.params q.params hp.params hq.params hp.paramsLen hq.paramsLen
+    (Nat.le_trans (ucpm_join_le p).1 hp.fit) (Nat.le_trans (ucpm_join_le q).1 hq.fit) hq.paramsNoDup
+  unfold uriCmpParamsPart
+  rw [(ucpm_gets p hp).2.2.2.1, (ucpm_gets q hq).2.2.2.1]
+  simp only [hr, Option.map_some, Option.some.injEq]
+  rw [hrs]
+  exact ucpm_paramsEqv_eff _ _ (fun i hi => (hp.params i hi).ne) (fun i hi => (hq.params i hi).ne)
+
+theorem ucpm_hdrsPart (p q : UcpmParts) (hp : UcpmOk p) (hq : UcpmOk q) :
+    uriCmpHdrsPart (ucpmURI p) (ucpmRaw p) (ucpmURI q) (ucpmRaw q) = some true ↔ UcpmHdrsEqv p.hdrs q.hdrs := by
+  obtain ⟨r, hr, hrs⟩ := ucpm_hdrsEq_spec p.hdrs q.hdrs hp.hdrs hq.hdrs hp.hdrsLen hq.hdrsLen
+    (Nat.le_trans (ucpm_join_le p).2 hp.fit) (Nat.le_trans (ucpm_join_le q).2 hq.fit) hq.hdrsNoDup
+  unfold uriCmpHdrsPart
+  rw [(ucpm_gets p hp).2.2.2.2, (ucpm_gets q hq).2.2.2.2]
+  simp only [hr, Option.map_some, Option.some.injEq]
+  rw [hrs]
+  exact ucpm_hdrsEqv_eff _ _ (fun i hi => (hp.hdrs i hi).ne) (fun i hi => (hq.hdrs i hi).ne)
+
+/-- URICmp on the two parsed renderings says "equal" exactly when the parts are equal in the sense of `UcpmSpec` -/
+theorem ucpm_uriCmp_true_iff (p q : UcpmParts) (hp : UcpmOk p) (hq : UcpmOk q) (f : Nat) :
+    uriCmp (ucpmURI p) (ucpmRaw p) (ucpmURI q) (ucpmRaw q) f = some true ↔ UcpmSpec p q f := by
+  obtain ⟨gu, gp, gh, _, _⟩ := ucpm_gets p hp
+  obtain ⟨gu', gp', gh', _, _⟩ := ucpm_gets q hq
+  rw [uriCmp_true_iff, uriCmpShort_true_iff, ucpm_paramsPart p q hp hq, ucpm_hdrsPart p q hp hq, gu, gu', gp, gp', gh,
+    gh', ucpm_some_eq, ucpm_some_eq, ucpm_some_caseEq]
+  unfold UcpmSpec
+  have ht : (ucpmURI p).uriType = (ucpmURI q).uriType ↔ p.sips = q.sips := by
+    show (if p.sips then SIPSuri else SIPuri) = (if q.sips then SIPSuri else SIPuri) ↔ _
+    cases p.sips <;> cases q.sips <;> decide
+  rw [ht]
+  show (_ ∧ (_ ∨ ucpmPortNo p = ucpmPortNo q) ∧ _) ∧ _ ↔ _
+  constructor
+  · rintro ⟨⟨a1, a2, a3, a4, a5⟩, a6, a7⟩
+    exact ⟨a1, a2, a3, a4, a5, a6, a7⟩
+  · rintro ⟨a1, a2, a3, a4, a5, a6, a7⟩
+    exact ⟨⟨a1, a2, a3, a4, a5⟩, a6, a7⟩
+
+/-- **URIParseCmp on two renderings**: no panic, no error, both parsed URIs handed back (they are `ucpmURI`), and the
+    verdict is "equal" exactly when the parts are equal in the sense of `UcpmSpec` — for every flag value -/
+theorem uriParseCmp_text_spec (p q : UcpmParts) (hp : UcpmOk p) (hq : UcpmOk q) (f : Nat) :
+    ∃ r, uriParseCmp (ucpmRaw p) (ucpmRaw q) f = some (r, UErr.none, 0, some (ucpmURI p), some (ucpmURI q)) ∧
+      (r = true ↔ UcpmSpec p q f) := by
+  have fp : (ucpmRaw p).size ≤ 65535 := by simpa [ucpmRaw] using hp.fit
+  have fq : (ucpmRaw q).size ≤ 65535 := by simpa [ucpmRaw] using hq.fit
+  have g1 : SrUriGet (ucpmRaw p) (ucpmURI p) := by
+    have := srUriGet_parse (ucpmRaw p) fp (by rw [ucpm_parse p hp])
+    rw [ucpm_parse p hp] at this
+    exact this
+  have g2 : SrUriGet (ucpmRaw q) (ucpmURI q) := by
+    have := srUriGet_parse (ucpmRaw q) fq (by rw [ucpm_parse q hq])
+    rw [ucpm_parse q hq] at this
+    exact this
+  obtain ⟨r, hr⟩ := uriCmp_some (ucpmURI p) (ucpmRaw p) (ucpmURI q) (ucpmRaw q) f fp fq g1 g2
+  refine ⟨r, ?_, ?_⟩
+  · rw [uriParseCmp_ok _ _ f (ucpm_parse p hp) (ucpm_parse q hq), hr]
+    rfl
+  · rw [← ucpm_uriCmp_true_iff p q hp hq f, hr]
+    simp
+
 end Sipsp
